@@ -29,12 +29,17 @@ PROPS = {
         assumptions=["stdio stream = byte array, a gap created by writing past the end reads as zeros; single-threaded; all offsets and lengths within int32 (the model is unbounded)"],
     ),
     "C12": dict(
-        lean_props=["H4.Props.C12", "H4.Props.C12Fn"],
+        lean_props=["H4.Props.C12", "H4.Props.C12Fn", "H4.Props.C12Fn2"],
         engines=[
             E("dd", "e_dd.c", model="dd", quick=dict(cases=640, chunk=16, timeout=900), thorough=dict(cases=6400, seeds=4, chunk=32, timeout=1800)),
         ],
         trusted_base=["tbbt.c / dynarray.c (tag tree and per-tag ref array): not modelled, the model derives them from the DD blocks",
-                      "special-element layers (hblocks.c etc.): only the descriptor footprint of HLcreate is replayed"],
+                      "special-element layers (hblocks.c etc.): only the descriptor footprint of HLcreate is replayed",
+                      "function-level Tie A of hfiledd.c (H4.Props.C12Fn2), assumed callee behaviour: HAatom_group / HAatom_object / tbbtdfind return an object or NULL and leave the file record and the bit vectors alone; "
+                      "HTIfind_dd(file_rec, DFTAG_WILDCARD, ref, &NULL, DF_FORWARD) changes nothing and its answer is a function of ref (a table; for the model file: FAIL iff no live descriptor has that ref); "
+                      "HTIregister_tag_ref changes nothing in the translated state and answers per descriptor (a table; regTable = the answers of the model's register); HP_write appends the buffer to the output stream, "
+                      "HP_read delivers the next bytes of the input stream or FAILs; the back pointer dd->blk is not modelled; uint32 -> int32 conversions wrap; HTPsync_ddlist / HTPstart_ddlist are fragments of HTPsync / HTPstart "
+                      "(the statements around them - block chain, header, malloc - are the hand model's)"],
         assumptions=["stdio stream = byte array; single-threaded; no malloc failure; file offsets stay below 2^31; the file is open with write access"],
     ),
     "C17": dict(
@@ -164,7 +169,7 @@ PROPS = {
                      "attribute names are non-empty and contain no NUL or comma; dimension names set by the user do not start with \"fakeDim\" (known finding otherwise)"],
     ),
     "C20": dict(
-        lean_props=["H4.Props.C20"],
+        lean_props=["H4.Props.C20", "H4.Props.C12Fn2"],
         engines=[
             E("limits", "e_limits.c", model="limits", cflags=["-fwrapv", "-fno-sanitize=signed-integer-overflow"],
               quick=dict(cases=320, chunk=10, timeout=1200), thorough=dict(cases=3200, seeds=2, chunk=20, timeout=2400)),
